@@ -1,11 +1,444 @@
-"""C03 — fork-resolution verdict equals the protocol's keystone scoring."""
+"""C03 — fork-resolution verdict equals the protocol's keystone scoring.
+
+Pure scoring core: internal::comparePopScoreImpl instantiated by harness/h_score.cpp on
+synthetic publication views (no block trees), the keystone_util functions, the default
+parameters.  Model: coq/Score/CmpDefs.v (impl as coded, spec), coq/Gen/KeystoneGen.v
+(generated from keystone_util.cpp), extracted to OCaml.
+
+Oracles evaluated on the IMPLEMENTATION's results (a failure is a concrete failing input):
+  * sign(comparePopScoreImpl(A,B)) = sign(spec A B) for every generated profile pair, in the
+    reading that matches the kind of view (holes view -> pub reading, real view -> inf reading)
+  * antisymmetry under role swap and 0 without keystones (inside the harness)
+  * keystone_util results = the mathematical definitions on the proved range
+A disagreement between the as-coded model and the implementation that none of these oracles
+turns into a failing input is reported as a broken correspondence.
+"""
+import os
 import vlib
 
 LEVEL = "proof"
-ASSUMPTIONS = []
+ASSUMPTIONS = [
+    "publication heights lie in [0, 2^31-1 - finalityDelay - table size) (block heights of the SP chain); "
+    "number of keystones * max table entry < 2^31; lookup table non-empty",
+    "both views start at the same first keystone and share the config object (asserted by the code)",
+    "ReducedPublicationView/getKeystoneContext (which endorsements count) and the outer comparePopScore are "
+    "modelled (decision function of the short-cuts), not exercised on real block trees by this check",
+]
 HARNESSES = [("h_score", "rel")]
-META = {"text": "in progress", "note": "", "technique": "Coq proof + extraction-based differential correspondence"}
+META = {
+    "text": "Theorems (Coq, all views, any number of keystones, by induction): the sign of comparePopScoreImpl "
+            "as coded (int scores, NO_ENDORSEMENT sentinel, early exits, UB as explicit outcome) equals the sign of "
+            "a declarative keystone-by-keystone scorer, both for views with holes (nullptr = no publication) and "
+            "for the real ReducedPublicationView (unpublished keystone = context holding INT32_MAX = infinitely "
+            "late publication); exact antisymmetry under role swap; 0 without keystones; the outer short-cuts "
+            "never favour an invalid candidate or one forking below a finalized block. keystone_util.cpp is "
+            "regenerated from the clang AST and proved equal to k*ki / floor(h/ki) arithmetic on the int32 range. "
+            "REFUTED (finding): on real views the verdict differs from the reading pinned by the repo's unit "
+            "tests (a keystone without publication is merely missing).",
+    "note": "Trusted: Coq kernel, extraction, OCaml driver, C++ harness (synthetic view mimicking "
+            "ReducedPublicationView), tools/gen_keystone.py (clang JSON AST -> Gallina, fails closed), "
+            "tools/gen_scoreparams.py (regex, cross-checked against the linked library at run time). Signed "
+            "overflow / empty-table read are explicit Ub outcomes, excluded by the range hypotheses.",
+    "technique": "Coq proof (induction over the keystone list; lia) + source-generated leaf functions + "
+                 "extraction-based differential correspondence with direct oracles",
+}
+
+MAXI = 2 ** 31 - 1
+DEFAULT_TABLE = [100, 100, 95, 89, 80, 69, 56, 40, 21]
+# (table, finality delay, keystone interval)
+CONFIGS = [
+    (DEFAULT_TABLE, 100, 5), (DEFAULT_TABLE, 11, 20), ([100, 100, 95], 2, 5), ([3, 2, 1], 1, 3),
+    ([5], 5, 2), ([7, 7], 0, 1), ([0, 7, 0, 4], 3, 25), ([0x1fffffff, 1], 2, 7),
+]
+SWEEP_TABLES = [[100, 100, 95], [3, 2, 1], [5]]
+SWEEP_FDS = [1, 2, 5]
+
+
+def hx(v):
+    return ("-%x" % -v) if v < 0 else "%x" % v
+
+
+def csv(l):
+    return ",".join(hx(x) for x in l) if l else "-"
+
+
+def slots(profile, reading):
+    """profile: list of int|None; the view handed to comparePopScoreImpl"""
+    if not profile:
+        return "-"
+    none = "n" if reading == "pub" else hx(MAXI)
+    return ",".join(none if h is None else hx(h) for h in profile)
+
+
+def pslots(profile):
+    return ",".join("n" if h is None else hx(h) for h in profile) if profile else "-"
+
+
+class Cases:
+    def __init__(self):
+        self.cases = []      # (id, op, args) fed to model and harness
+        self.spec = []       # (id, op, args) fed to the model only; same id as the cmp case it belongs to
+        self.k = 0
+        self.hist = {}
+
+    def add(self, op, *args):
+        self.k += 1
+        cid = "c%d" % self.k
+        self.cases.append((cid, op, [str(a) for a in args]))
+        self.hist[op] = self.hist.get(op, 0) + 1
+        return cid
+
+    def pair(self, cfg, reading, pa, pb):
+        table, fd, ki = cfg
+        cid = self.add("cmp", hx(fd), csv(table), hx(ki), hx(ki), slots(pa, reading), slots(pb, reading))
+        self.spec.append((cid, "spec", [reading, hx(fd), csv(table), pslots(pa), pslots(pb)]))
+        return cid
+
+
+def gen_profile(r, cfg, high=False):
+    table, fd, ki = cfg
+    maxn = max(0, min(8, (MAXI // max(table)) if max(table) > 0 else 8))
+    n = r.choice([0, 1, 1, 2, 2, 3, 3, 4, 5, 6, 8])
+    n = min(n, maxn, 4 if high else 8)
+    incs = [0, 0, 1, 1, 2, 3, fd - 1, fd, fd, fd + 1, fd + 1, fd + 2, len(table) - 1, len(table), len(table) + 1, 2 * fd + 1]
+    incs = [i for i in incs if i >= 0 and (not high or i <= 12)]
+    h = (MAXI - fd - len(table) - 60) if high else r.choice([0, 1, 50, 100, 1000])
+    prof = []
+    for _ in range(n):
+        if r.chance(1, 5):
+            prof.append(None)
+            continue
+        if r.chance(1, 6):
+            h = max(0, h - r.choice([1, 2, fd, fd + 1]))
+        else:
+            h += r.choice(incs)
+        prof.append(h)
+    return prof
+
+
+def mutate(r, cfg, p):
+    table, fd, ki = cfg
+    p = list(p)
+    k = r.below(7)
+    if not p:
+        return gen_profile(r, cfg)
+    i = r.below(len(p))
+    if k == 0:
+        p[i] = None
+    elif k == 1 and p[i] is not None:
+        p[i] = max(0, p[i] + r.choice([-1, 1, -fd, fd, fd + 1, -(fd + 1), len(table), -len(table)]))
+    elif k == 2:
+        p = p[:i]
+    elif k == 3:
+        base = max([x for x in p if x is not None] or [0])
+        p = p + [r.choice([None, base, base + 1, base + fd, base + fd + 1])]
+    elif k == 4 and p[i] is None:
+        prev = [x for x in p[:i] if x is not None]
+        p[i] = (prev[-1] if prev else 0) + r.choice([0, 1, fd, fd + 1])
+    elif k == 5:
+        p = [None if x is None else x + 1 for x in p]
+    return p
+
+
+def gen_cases(ctx, cs, n_random):
+    r = ctx.rng
+    cs.add("params")
+    # ---- keystone_util: exhaustive over heights -5..300 x intervals 1..25 ----
+    for ki in range(1, 26):
+        for h in range(-5, 301):
+            cs.add("k2", hx(h), hx(ki))
+            for n in range(0, 4):
+                cs.add("gpk", hx(h), hx(ki), hx(n))
+            for t in sorted({h, h + 1, h + ki - 1, h + ki, h + 2 * ki, h - 1, ki * ((h // ki) + 1) - 1, ki * ((h // ki) + 1)}):
+                cs.add("k3", hx(h), hx(t), hx(ki))
+    # boundary values of the int32 / uint32 ranges (defined behaviour only; Ub cases are dropped below)
+    for h in (0, 1, MAXI - 1, MAXI, MAXI - 20, -MAXI - 1, -1):
+        for ki in (1, 2, 20, 2 ** 31 - 1, 2 ** 31, 2 ** 31 + 1, 2 ** 32 - 1):
+            cs.add("k2", hx(h), hx(ki))
+            cs.add("k3", hx(h), hx(max(h, 5)), hx(ki))
+            cs.add("gpk", hx(h), hx(ki), hx(0))
+            cs.add("gpk", hx(h), hx(ki), hx(3))
+    # ---- scoring core: random + boundary profile pairs ----
+    for i in range(n_random):
+        cfg = CONFIGS[i % len(CONFIGS)]
+        reading = "pub" if (i // len(CONFIGS)) % 2 == 0 else "inf"
+        high = r.chance(1, 25)
+        pa = gen_profile(r, cfg, high)
+        kind = r.below(4)
+        if kind == 0:
+            pb = gen_profile(r, cfg, high)
+        elif kind == 1:
+            pb = list(pa)
+        else:
+            pb = mutate(r, cfg, pa)
+            if kind == 3:
+                pb = mutate(r, cfg, pb)
+        if high:
+            lim = MAXI - cfg[1] - len(cfg[0]) - 1
+            pa = [None if x is None else min(x, lim) for x in pa]
+            pb = [None if x is None else min(x, lim) for x in pb]
+        cs.pair(cfg, reading, pa, pb)
+    # missing keystone at each position / role swap on a fixed ladder, every config and reading
+    for cfg in CONFIGS:
+        table, fd, ki = cfg
+        n = min(5, MAXI // max(1, max(table)))
+        ladder = [10 + i for i in range(n)]
+        for reading in ("pub", "inf"):
+            for i in range(n + 1):
+                for j in range(n + 1):
+                    pa = [None if k == i else ladder[k] for k in range(n)]
+                    pb = [None if k == j else ladder[k] + (k % 2) for k in range(n)]
+                    cs.pair(cfg, reading, pa, pb)
+                    cs.pair(cfg, reading, pb[:j], pa)
+    # views that mix nullptr and NO_ENDORSEMENT contexts, heights next to INT32_MAX: model vs implementation only
+    for i in range(n_random // 10):
+        cfg = CONFIGS[i % len(CONFIGS)]
+        table, fd, ki = cfg
+
+        def raw():
+            n = min(r.below(5), MAXI // max(1, max(table)))
+            out = []
+            for _ in range(n):
+                k = r.below(6)
+                out.append("n" if k == 0 else hx(MAXI) if k == 1 else hx(MAXI - r.below(fd + len(table) + 3)) if k == 2
+                           else hx(r.below(2 * fd + 5)))
+            return ",".join(out) if out else "-"
+        cs.add("cmp", hx(fd), csv(table), hx(ki), hx(ki), raw(), raw())
+
+
+def sweep_plan(tier):
+    """(reading, table, fd, ki, maxk, heights) of the exhaustive sweeps"""
+    plan = []
+    if tier == "quick":
+        for t in SWEEP_TABLES:
+            for fd in (1, 2):
+                for reading in ("pub", "inf"):
+                    plan.append((reading, t, fd, 5, 3, [0, 1, 2, 3, 4]))
+    else:
+        for t in SWEEP_TABLES:
+            for fd in SWEEP_FDS:
+                for reading in ("pub", "inf"):
+                    plan.append((reading, t, fd, 5, 3, list(range(8))))
+                    plan.append((reading, t, fd, 5, 4, [0, 1, 2, 3]))
+    return plan
+
+
+def enum_profiles(maxk, hs):
+    vals = [None] + list(hs)
+    out = []
+    for k in range(maxk + 1):
+        idx = [0] * k
+        while True:
+            out.append([vals[i] for i in idx])
+            i = k - 1
+            while i >= 0:
+                idx[i] += 1
+                if idx[i] < len(vals):
+                    break
+                idx[i] = 0
+                i -= 1
+            if i < 0:
+                break
+    return out
+
+
+def write_cases(path, cases):
+    with open(path, "w") as f:
+        for cid, op, args in cases:
+            f.write("%s %s %s\n" % (cid, op, " ".join(args)))
+
+
+def sgn_of(res):
+    """'ok:<hex>' -> sign, else None"""
+    if not res or not res.startswith("ok:"):
+        return None
+    t = res[3:]
+    return -1 if t.startswith("-") else (0 if t == "0" else 1)
+
+
+def evaluate(ctx, model, harness, cases, spec, tag):
+    """run explicit cases on model and implementation, apply all oracles. Returns number of comparisons."""
+    inp = os.path.join(ctx.work, tag + "-cases.txt")
+    write_cases(inp, cases)
+    rc1, mres, _, merr = vlib.run_lines([model], inp)
+    # undefined behaviour (signed overflow, x/0) is outside the domain: never executed on the implementation
+    defined = [c for c in cases if "ub" not in (mres.get(c[0]) or "").split() and (mres.get(c[0]) or "") != "ub"]
+    ctx.cov["ub_cases_skipped"] = ctx.cov.get("ub_cases_skipped", 0) + len(cases) - len(defined)
+    inp2 = os.path.join(ctx.work, tag + "-impl.txt")
+    write_cases(inp2, defined)
+    rc2, ires, orc, ierr = vlib.run_lines([harness], inp2)
+    sres = {}
+    if spec:
+        inp3 = os.path.join(ctx.work, tag + "-spec.txt")
+        write_cases(inp3, spec)
+        rc3, sres, _, serr = vlib.run_lines([model], inp3)
+        if rc3 != 0:
+            ctx.broken.append("runner: spec model rc=%d %s" % (rc3, serr[-200:]))
+    if rc1 != 0 or rc2 != 0:
+        ctx.broken.append("runner(%s): model rc=%d impl rc=%d %s" % (tag, rc1, rc2, (merr + ierr)[-300:]))
+    byid = {c[0]: c for c in cases}
+    specby = {c[0]: c for c in spec}
+    reported = set()
+
+    def report(cid, what, extra=None):
+        if cid in reported:
+            return
+        reported.add(cid)
+        obj = {"kind": "input", "cases": [byid[cid]] if cid in byid else [], "spec": [specby[cid]] if cid in specby else [],
+               "model": mres.get(cid), "impl": ires.get(cid), "spec_sign": sres.get(cid), "what": what}
+        if extra:
+            obj.update(extra)
+        ctx.violation(obj)
+    # 1. direct oracles evaluated inside the harness
+    for cid, text in orc:
+        report(cid, "direct oracle failed on the implementation: " + text)
+    # 2. sign of the implementation's verdict vs the protocol scorer
+    nspec = 0
+    for cid, _, _ in spec:
+        if cid not in ires:
+            continue
+        nspec += 1
+        s = sgn_of(ires[cid])
+        if s is None or str(s) != sres.get(cid):
+            report(cid, "sign of comparePopScoreImpl differs from the protocol scorer (spec)")
+    # 3. keystone_util vs the mathematical definitions on the proved range
+    math = []
+    for cid, op, args in defined:
+        if op == "k2":
+            h, ki = int(args[0], 16), int(args[1], 16)
+            if 0 <= h and 0 < ki and h + ki + 1 <= MAXI:
+                math.append((cid, "m2", args))
+    if math:
+        inp4 = os.path.join(ctx.work, tag + "-math.txt")
+        write_cases(inp4, math)
+        _, mm, _, _ = vlib.run_lines([model], inp4)
+        for cid, _, _ in math:
+            if mm.get(cid) != ires.get(cid):
+                report(cid, "keystone_util result differs from the mathematical definition (k*ki, floor(h/ki))",
+                       {"math": mm.get(cid)})
+    # 4. as-coded model vs implementation
+    bad = vlib.diff_results({c[0]: mres.get(c[0]) for c in defined}, ires)
+    for cid in bad:
+        if cid in reported:
+            continue
+        c = byid.get(cid)
+        if c and c[1] == "params":
+            ctx.broken.append("corr:Gen.ScoreParams: generated defaults %r differ from the linked library %r"
+                              % (mres.get(cid), ires.get(cid)))
+        else:
+            ctx.broken.append("corr:Score.%s: first disagreeing input %r model=%r impl=%r (no oracle fails on it)"
+                              % (c[1] if c else "?", c, mres.get(cid), ires.get(cid)))
+            break
+    ctx.cov["spec_sign_checks"] = ctx.cov.get("spec_sign_checks", 0) + nspec
+    ctx.cov["math_checks"] = ctx.cov.get("math_checks", 0) + len(math)
+    for c in cases[:2] + cases[-2:]:
+        ctx.sample({"case": c, "model": mres.get(c[0]), "impl": ires.get(c[0]), "spec_sign": sres.get(c[0])})
+    return len(defined), len(bad)
+
+
+def run_sweeps(ctx, model, harness):
+    plan = sweep_plan(ctx.tier)
+    lines = []
+    meta = {}
+    k = 0
+    for reading, t, fd, ki, maxk, hs in plan:
+        nprof = sum((len(hs) + 1) ** i for i in range(maxk + 1))
+        chunk = max(1, nprof // 8)
+        for lo in range(0, nprof, chunk):
+            k += 1
+            cid = "s%d" % k
+            meta[cid] = (reading, t, fd, ki, maxk, hs, lo, min(nprof, lo + chunk), nprof)
+            lines.append((cid, "sweep", [reading, hx(fd), csv(t), hx(ki), str(maxk), csv(hs), str(lo), str(lo + chunk)]))
+    inp = os.path.join(ctx.work, "sweep.txt")
+    write_cases(inp, lines)
+    rc1, mres, _, merr = vlib.run_lines([model], inp, timeout=3000)
+    rc2, ires, orc, ierr = vlib.run_lines([harness], inp, timeout=3000)
+    if rc1 != 0 or rc2 != 0:
+        ctx.broken.append("runner(sweep): model rc=%d impl rc=%d %s" % (rc1, rc2, (merr + ierr)[-300:]))
+    total = 0
+    expand = []
+    for cid, _, _ in lines:
+        m = (mres.get(cid) or "").split()
+        i = (ires.get(cid) or "").split()
+        if len(m) != 4 or len(i) != 2:
+            ctx.broken.append("runner(sweep): malformed output %r / %r" % (mres.get(cid), ires.get(cid)))
+            continue
+        total += int(i[1])
+        if m[0] != i[0] or m[1] != i[1] or m[2] != "0":
+            expand.append(cid)
+    for cid, _ in orc:
+        if cid in meta and cid not in expand:
+            expand.append(cid)
+    ctx.cov["sweep_pairs"] = total
+    ctx.cov["sweep_configs"] = len(plan)
+    # a chunk whose checksum differs (or whose model-side sign check / harness oracle failed) is re-run pair by pair
+    for cid in expand[:3]:
+        reading, t, fd, ki, maxk, hs, lo, hi, nprof = meta[cid]
+        profs = enum_profiles(maxk, hs)
+        cs = Cases()
+        for a in range(lo, hi):
+            for b in range(nprof):
+                cs.pair((t, fd, ki), reading, profs[a], profs[b])
+                if len(cs.cases) >= 400000:
+                    break
+        n, nbad = evaluate(ctx, model, harness, cs.cases, cs.spec, "expand-" + cid)
+        if not ctx.violations:
+            ctx.broken.append("corr:Score.sweep: chunk %s %r differs (model %r impl %r) but no single pair does"
+                              % (cid, meta[cid][:6], mres.get(cid), ires.get(cid)))
+    return total
 
 
 def run(ctx):
     ctx.prove()
+    okm, model, mlog = vlib.build_model("Score")
+    okh, hs, hlog = vlib.build_harness(["h_score"])
+    if not okm:
+        ctx.broken.append("model-build: " + mlog[-300:])
+    if not okh:
+        ctx.broken.append("harness-build: " + hlog[-300:])
+    if not (okm and okh):
+        return
+    harness = hs["h_score"]
+    ctx.cov["trusted_base"] = [
+        "tools/gen_keystone.py: clang -ast-dump=json of src/pop/keystone_util.cpp -> coq/Gen/KeystoneGen.v (fails closed)",
+        "tools/gen_scoreparams.py: regex over alt_chain_params.hpp / vbk_chain_params.hpp -> coq/Gen/ScoreParams.v, "
+        "compared with the linked library's defaults on every run (op params)",
+        "harness view: struct View in harness/h_score.cpp mimics ReducedPublicationView (size/empty/getKeystone on top of "
+        "the library's keystone_util); getProtoKeystoneContext/getKeystoneContext and the outer comparePopScore are "
+        "modelled, not exercised",
+    ]
+    if ctx.replay:
+        cases = [tuple(c) for c in ctx.replay.get("cases", [])]
+        spec = [tuple(c) for c in ctx.replay.get("spec", [])]
+        n, _ = evaluate(ctx, model, harness, cases, spec, "replay")
+        ctx.cov["evaluations"] = n
+        return
+    # corpus first
+    cs = Cases()
+    cdir = os.path.join(vlib.VERIF, "corpus", "C03")
+    ncorpus = 0
+    if os.path.isdir(cdir):
+        for fn in sorted(os.listdir(cdir)):
+            if not fn.endswith(".txt"):
+                continue
+            for line in open(os.path.join(cdir, fn)):
+                t = line.split()
+                if len(t) == 7 and t[0] == "pair":   # pair <reading> <fd> <table> <ki> <A> <B>
+                    def prof(s):
+                        return [] if s == "-" else [None if x == "n" else int(x, 16) for x in s.split(",")]
+                    cs.pair(([int(x, 16) for x in t[3].split(",")], int(t[2], 16), int(t[4], 16)), t[1], prof(t[5]), prof(t[6]))
+                    ncorpus += 1
+    gen_cases(ctx, cs, 20000 if ctx.tier == "quick" else 300000)
+    n, nbad = evaluate(ctx, model, harness, cs.cases, cs.spec, "main")
+    total = run_sweeps(ctx, model, harness)
+    ctx.cov["evaluations"] = n + total
+    ctx.cov["distinct_nontrivial"] = len({(op, tuple(a)) for _, op, a in cs.cases if op == "cmp" and a[4] != "-" and a[5] != "-"}) + total
+    ctx.cov["rule"] = ("distinct (config, view A, view B) with both views non-empty among the explicit cases, plus every pair "
+                       "of the exhaustive sweeps (all profiles up to maxk keystones over the listed heights and 'no publication')")
+    ctx.cov["op_histogram"] = cs.hist
+    ctx.cov["corpus_cases"] = ncorpus
+    ctx.cov["exhaustive"] = True
+    ctx.cov["disagreements_checked"] = n + total
+    ctx.cov["traces_validated_against_impl"] = n + total - nbad
+    ctx.cov["configs"] = [{"table": t, "finality_delay": fd, "keystone_interval": ki} for t, fd, ki in CONFIGS]
+    ctx.cov["sweeps"] = [{"reading": r_, "table": t, "fd": fd, "maxk": mk, "heights": h} for r_, t, fd, ki, mk, h in sweep_plan(ctx.tier)]
